@@ -292,6 +292,7 @@ def extra(tier, rng, workdir):
                 deps = cl.dep_decoders(T[it["T"]]["r"]) if it["T"] in T else []
                 if len(deps) == 1:
                     label = "dep:" + deps[0] + ":alloc"
+            ri["dep_alloc"] = bool(label and label.startswith("dep:") and label.endswith(":alloc"))
             failures.append({"key0": site_key(it["T"], label), "what": "%s.Deserialize on %d hostile bytes: %s%s" % (
                 it["T"], n, CLASS_NAMES.get(o[0], o[0]), ", allocated %d bytes" % o[2] if len(o) > 2 and o[2] > 0 else ""),
                 "type": ri["T"], "input": ri["bs"].hex(), "observed": o, "child": ri.get("why"), "origin": it["origin"],
@@ -324,6 +325,10 @@ def extra(tier, rng, workdir):
         rb = real_bad(o, n)
         # random inputs are decoded behind the type code: same payload decoder
         if grey:
+            continue
+        if ri.get("dep_alloc"):
+            # reported above as an allocation inside a dependency decoder: the model of the repository's own
+            # readers does not (and is not meant to) predict what tokenized/pkg allocates
             continue
         if model_bad != rb or (mc == 2) != (o[0] == 2) and not (o[0] in (3, 4)):
             disagree += 1
